@@ -1,55 +1,32 @@
 import HqModel.Lemmas.CoreMsgBase
 /-!
 Message-level facts, part 2: `Evo` (how task records change) for every function of `Model.lean` / `Reactor.lean`
-that is reachable from an operation other than `newTasks` / `schedule`, the sends (`Tr`) and the `started`
-callbacks (`St`) they emit.
+that is reachable from an operation other than `newTasks` / `schedule`, the sends (`Tr`) they emit and the tasks
+their `started` callbacks name.
+
+(What an announced start means for LATER sends — "the task stays locked" — is not a fact about task records alone
+since `task_reject` takes a multi-node task whose root has NOT started it back to Waiting: it needs the `started`
+flag of the root's worker record and is proved in `Lemmas/CoreMsgStart.lean` on top of the global invariant.)
 -/
 namespace HqModel.Core
 
-/-! ### `started` callbacks -/
-
-/-- `r` = `started` callbacks emitted before reaching `s`: the task (if still in the map) has a larger instance id
-now, or the same one and is locked (Running / RunningMultiNode / Finished) -/
-def St (s : State) (r : List (TaskId × Nat)) : Prop :=
-  ∀ q ∈ r, ∀ t ∈ s.tasks, t.id = q.1 → q.2 < t.inst ∨ (q.2 = t.inst ∧ locked t.state)
-
-theorem St.nil (s : State) : St s [] := fun _ h => by cases h
-
-theorem St.evo {nw cr : Prop} {s s' : State} {r} (h : St s r) (e : Evo nw cr s s') : St s' r := by
-  intro q hq t' ht' hid
-  obtain ⟨t, ht, rel⟩ := e t' ht'
-  rcases h q hq t ht (rel.id ▸ hid) with h1 | ⟨h1, h2⟩
-  · exact Or.inl (Nat.lt_of_lt_of_le h1 rel.inst)
-  · rcases rel.lock h2 with h3 | h3
-    · rcases Nat.lt_or_ge t.inst t'.inst with h4 | h4
-      · exact Or.inl (h1 ▸ h4)
-      · exact Or.inr ⟨by have := rel.inst; omega, h3⟩
-    · exact Or.inl (h1 ▸ h3)
-
-theorem St.append {s : State} {r1 r2} (h1 : St s r1) (h2 : St s r2) : St s (r1 ++ r2) := by
-  intro q hq
-  rcases List.mem_append.mp hq with h | h
-  · exact h1 q h
-  · exact h2 q h
-
-/-- everything a function guarantees: task records, sends, starts -/
+/-- everything a function guarantees: task records, sends, and which tasks its `started` callbacks (`r`) name -/
 structure Fx (nw cr : Prop) (s : State) (l r : List (TaskId × Nat)) (s' : State) : Prop where
   evo : Evo nw cr s s'
   tr : Tr nw s l s'
-  st : St s' r
   /-- a `started` callback names a task of the map -/
   sx : ∀ q ∈ r, ∃ t ∈ s.tasks, t.id = q.1
 
 theorem Fx.silent {nw cr : Prop} {s s' : State} (e : Evo nw cr s s') : Fx nw cr s [] [] s' :=
-  ⟨e, Tr.nil _ _ _, St.nil _, fun _ h => by cases h⟩
+  ⟨e, Tr.nil _ _ _, fun _ h => by cases h⟩
 
 /-- nothing started -/
 theorem Fx.of_tr {nw cr : Prop} {s s' : State} {l} (e : Evo nw cr s s') (t : Tr nw s l s') : Fx nw cr s l [] s' :=
-  ⟨e, t, St.nil _, fun _ h => by cases h⟩
+  ⟨e, t, fun _ h => by cases h⟩
 
 theorem Fx.comp {nw cr : Prop} {s s1 s2 : State} {l1 l2 r1 r2} (a : Fx nw cr s l1 r1 s1) (b : Fx nw cr s1 l2 r2 s2) :
     Fx nw cr s (l1 ++ l2) (r1 ++ r2) s2 := by
-  refine ⟨a.evo.trans b.evo, Tr.comp a.evo a.tr b.evo b.tr, (a.st.evo b.evo).append b.st, ?_⟩
+  refine ⟨a.evo.trans b.evo, Tr.comp a.evo a.tr b.evo b.tr, ?_⟩
   intro q hq
   rcases List.mem_append.mp hq with h | h
   · exact a.sx q h
@@ -68,7 +45,7 @@ theorem Fx.after {nw cr : Prop} {s s1 s2 : State} {l r} (e : Evo nw cr s s1) (b 
   simpa using this
 
 theorem Fx.mono {nw cr cr' : Prop} {s s' : State} {l r} (a : Fx nw cr s l r s') (h : cr' → cr) : Fx nw cr' s l r s' :=
-  ⟨a.evo.mono id h, a.tr, a.st, a.sx⟩
+  ⟨a.evo.mono id h, a.tr, a.sx⟩
 
 /-! ### `Model.lean` -/
 
@@ -225,34 +202,12 @@ theorem taskFailed_evo {nw cr : Prop} {s s' : State} {worker : Option Nat} {id :
 
 /-! ### `task_running` -/
 
-theorem St.put {s' : State} {ts : List Task} {t' : Task} {id : TaskId} (hts : s'.tasks = putTask ts t')
-    (hid : t'.id = id) (hl : locked t'.state) : St s' [(id, t'.inst)] := by
-  intro q hq t ht hqid
-  simp only [List.mem_singleton] at hq
-  subst hq
-  rw [hts] at ht
-  have := mem_putTask_id ht (hqid.trans hid.symm)
-  subst this
-  exact Or.inr ⟨rfl, hl⟩
-
-theorem St.same {s s' : State} {task : Task} {id : TaskId} (hn : (taskIds s.tasks).Nodup) (hts : s'.tasks = s.tasks)
-    (hf : s.task? id = some task) (hl : locked task.state) : St s' [(id, task.inst)] := by
-  intro q hq t ht hqid
-  simp only [List.mem_singleton] at hq
-  subst hq
-  rw [hts] at ht
-  have := mem_find_of_nodup hn ht
-  rw [hqid] at this
-  have e : some t = some task := this.symm.trans hf
-  cases e
-  exact Or.inr ⟨rfl, hl⟩
-
 theorem taskRunning_fx {nw cr : Prop} {s s' : State} {w : Nat} {id : TaskId} {rv : Nat} {o : Out}
-    (hn : (taskIds s.tasks).Nodup) (h : s.taskRunning w id rv = .ok (s', o)) :
-    Evo nw cr s s' ∧ sends o.msgs = [] ∧ St s' (starts o.cbs) ∧ ∀ q ∈ starts o.cbs, ∃ t ∈ s.tasks, t.id = q.1 := by
+    (h : s.taskRunning w id rv = .ok (s', o)) :
+    Evo nw cr s s' ∧ sends o.msgs = [] ∧ ∀ q ∈ starts o.cbs, ∃ t ∈ s.tasks, t.id = q.1 := by
   simp only [State.taskRunning] at h
   split at h
-  · cases h; exact ⟨Evo.refl _ _ _, rfl, St.nil _, fun _ hq => by cases hq⟩
+  · cases h; exact ⟨Evo.refl _ _ _, rfl, fun _ hq => by cases hq⟩
   · rename_i task ht
     have hid : task.id = id := findTask_some_id ht
     have hsx : ∀ (ws : List Nat) (q : TaskId × Nat),
@@ -269,8 +224,7 @@ theorem taskRunning_fx {nw cr : Prop} {s s' : State} {w : Nat} {id : TaskId} {rv
       · split at h
         · cases h
         · cases h
-          exact ⟨Evo.set rfl ht (TRel.state task _ (by simp [hs]) (by simp [hs])), rfl,
-            St.put (ts := s.tasks) (t' := { task with state := .running w rv }) rfl hid (by simp), hsx _⟩
+          exact ⟨Evo.set rfl ht (TRel.state task _ (by simp [hs]) (by simp [hs])), rfl, hsx _⟩
     · -- prefilled
       rename_i w' hs
       split at h
@@ -287,7 +241,7 @@ theorem taskRunning_fx {nw cr : Prop} {s s' : State} {w : Nat} {id : TaskId} {rv
               cases h
               have e : s'.tasks = putTask s.tasks { task with state := .running w rv } :=
                 (queueRemove_tasks h2).trans (withWorker_tasks h1)
-              refine ⟨?_, rfl, St.put (t' := { task with state := .running w rv }) e hid (by simp), hsx _⟩
+              refine ⟨?_, rfl, hsx _⟩
               unfold Evo; rw [e]
               exact EvoL.put ht (TRel.state task _ (by simp [hs]) (by simp [hs]))
     · -- retracting
@@ -309,7 +263,7 @@ theorem taskRunning_fx {nw cr : Prop} {s s' : State} {w : Nat} {id : TaskId} {rv
                 cases h
                 have e : s'.tasks = putTask s.tasks { task with state := .running w rv } :=
                   (withWorker_tasks h3).trans ((tryRemoveRedirection_tasks h2).trans (queueRemove_tasks h1))
-                refine ⟨?_, rfl, St.put (t' := { task with state := .running w rv }) e hid (by simp), hsx _⟩
+                refine ⟨?_, rfl, hsx _⟩
                 unfold Evo; rw [e]
                 exact EvoL.put ht (TRel.state task _ (by simp [hs]) (by simp [hs]))
     · -- runningMN
@@ -323,7 +277,7 @@ theorem taskRunning_fx {nw cr : Prop} {s s' : State} {w : Nat} {id : TaskId} {rv
           · rename_i s1 h1
             cases h
             have e := withWorker_tasks h1
-            exact ⟨Evo.of_tasks e, rfl, St.same hn e ht (by simp [hs]), hsx _⟩
+            exact ⟨Evo.of_tasks e, rfl, hsx _⟩
       · cases h
     all_goals cases h
 
@@ -423,6 +377,21 @@ theorem taskReject_fx {nw cr : Prop} {s s' : State} {w : Nat} {id : TaskId} {rv 
             exact ⟨a, by simpa [computeOne] using b, rfl⟩
           · have hr : TRel nw cr task { task with state := .waiting 0 } := TRel.state task _ (by simp) (by simp [hs])
             exact requeue_fx h rfl ht hr
+      · -- multi-node: refused by its root before the start was reported (back to Waiting, same instance id)
+        rename_i ws hs
+        have hr : TRel nw cr task { task with state := .waiting 0 } := TRel.state task _ (by simp) (by simp [hs])
+        split at h
+        · cases h
+        · split at h
+          · cases h; exact ⟨Evo.of_tasks rfl, Tr.nil _ _ _, rfl⟩
+          · split at h
+            · cases h; exact ⟨Evo.of_tasks rfl, Tr.nil _ _ _, rfl⟩
+            · split at h
+              · cases h; exact ⟨Evo.of_tasks rfl, Tr.nil _ _ _, rfl⟩
+              · split at h
+                · cases h
+                · rename_i s1 h1
+                  exact requeue_fx h (by have := resetMnChecked_tasks _ _ _ _ h1; exact this) ht hr
       all_goals cases h
 
 /-! ### `task_finished` -/
@@ -523,13 +492,13 @@ theorem updateLoop_fx {nw cr : Prop} (us : List Update) (s s' : State) (w : Nat)
       split at h
       · cases h
       · rename_i s1 o1 h1
-        obtain ⟨a, b, c, d⟩ := taskRunning_fx (nw := nw) (cr := cr) hn h1
-        exact key _ _ _ _ (taskRunning_stable h1).sub ⟨a, by rw [b]; exact Tr.nil _ _ _, c, d⟩ h
+        obtain ⟨a, b, d⟩ := taskRunning_fx (nw := nw) (cr := cr) h1
+        exact key _ _ _ _ (taskRunning_stable h1).sub ⟨a, by rw [b]; exact Tr.nil _ _ _, d⟩ h
     · split at h
       · cases h
       · rename_i s1 o1 h1
-        obtain ⟨a, b, c, d⟩ := taskRunning_fx (nw := nw) (cr := cr) hn h1
-        exact key _ _ _ _ (taskRunning_stable h1).sub ⟨a, by rw [b]; exact Tr.nil _ _ _, c, d⟩ h
+        obtain ⟨a, b, d⟩ := taskRunning_fx (nw := nw) (cr := cr) h1
+        exact key _ _ _ _ (taskRunning_stable h1).sub ⟨a, by rw [b]; exact Tr.nil _ _ _, d⟩ h
     · -- reject
       split at h
       · cases h
@@ -723,7 +692,7 @@ theorem lostAssigned_evo {nw cr : Prop} (ids : List TaskId) (s s' : State) (ru r
           · rename_i s2 r h2
             have e : Evo nw cr s (State.setTask { s with redirects := s.redirects.filter (·.1 ≠ id) }
                 { task with inst := task.inst + 1 }) :=
-              Evo.set rfl (getTask_ok ht) (TRel.bump task task.state (fun _ h => h))
+              Evo.set rfl (getTask_ok ht) (TRel.bump task task.state (fun _ h => h) (fun _ l' h => ⟨l', h, KeepL.refl _⟩))
             exact (e.trans (Evo.of_tasks (addReady_tasks h2))).trans (ih _ _ _ h)
       · split at h
         · cases h
@@ -783,8 +752,8 @@ theorem crashLoop_evo {nw : Prop} (ids : List TaskId) (s s' : State) (f : Bool) 
     · exact ih _ _ _ h
     · rename_i task ht
       have e : Evo nw (f = false) s (s.setTask { task with crashes := (crashOutcome task.crashLimit f task.crashes).1 }) :=
-        Evo.set rfl ht ⟨rfl, Nat.le_refl _, crashOutcome_ge _ _ _, fun _ h => h, fun h => Or.inl h,
-          fun hf => by subst hf; exact crashOutcome_stop _ _⟩
+        Evo.set rfl ht ⟨rfl, Nat.le_refl _, crashOutcome_ge _ _ _, fun _ h => h, fun h => Or.inl h, fun h => Or.inl h,
+          fun _ l' h => ⟨l', h, KeepL.refl _⟩, fun hf => by subst hf; exact crashOutcome_stop _ _⟩
       split at h
       · split at h
         · cases h
@@ -797,10 +766,10 @@ theorem crashLoop_evo {nw : Prop} (ids : List TaskId) (s s' : State) (f : Bool) 
 
 
 
-theorem removeWorker_fx {nw : Prop} {s s' : State} {w : Nat} {reason : String} {f : Bool} {order : List TaskId}
+theorem removeWorker_fx_starts {nw : Prop} {s s' : State} {w : Nat} {reason : String} {f : Bool} {order : List TaskId}
     {rets : List (List TaskId)} {o : Out} (hn : (taskIds s.tasks).Nodup)
     (h : s.removeWorker w reason f order rets = .ok (s', o)) :
-    Fx nw (f = false) s (sends o.msgs) (starts o.cbs) s' := by
+    Fx nw (f = false) s (sends o.msgs) (starts o.cbs) s' ∧ starts o.cbs = [] := by
   simp only [State.removeWorker] at h
   split at h
   · cases h
@@ -843,9 +812,9 @@ theorem removeWorker_fx {nw : Prop} {s s' : State} {w : Nat} {reason : String} {
                         Evo.set hts ht' (TRel.bump task _ (by simp))
                       refine ⟨e.trans (Evo.of_tasks (addReady_tasks h3)), ?_⟩
                       rw [addReady_tasks h3, setTask_ids, hts]
-                · cases hp1
-                  exact ⟨Evo.set (s := { s with workers := _ }) rfl ht'
-                    (TRel.state task _ (by simp [hs]) (by simp)), setTask_ids _ _⟩
+                · rename_i hroot
+                  cases hp1
+                  exact ⟨Evo.set (s := { s with workers := _ }) rfl ht' (TRel.filterMN task hs hroot), setTask_ids _ _⟩
               · cases hp1
             · cases hp1
       have hn1 : (taskIds s1.tasks).Nodup := e1.2 ▸ hn
@@ -866,9 +835,29 @@ theorem removeWorker_fx {nw : Prop} {s s' : State} {w : Nat} {reason : String} {
             have hc : starts out.cbs = [] := by
               rw [b4]; simp [b3, b2, startsOf]
             cases h
+            refine ⟨?_, hc⟩
             rw [hs, hc]
             have f2 : Fx nw (f = false) s1 l [] s2 := Fx.of_tr e2 t2
             exact ((Fx.after e1.1 f2).then (e3.trans e4)).then (Evo.of_tasks rfl)
+
+theorem removeWorker_fx {nw : Prop} {s s' : State} {w : Nat} {reason : String} {f : Bool} {order : List TaskId}
+    {rets : List (List TaskId)} {o : Out} (hn : (taskIds s.tasks).Nodup)
+    (h : s.removeWorker w reason f order rets = .ok (s', o)) :
+    Fx nw (f = false) s (sends o.msgs) (starts o.cbs) s' := (removeWorker_fx_starts hn h).1
+
+/-- the `started` callback of `task_running` names the reported task with its current instance id -/
+theorem taskRunning_starts {s s' : State} {w : Nat} {id : TaskId} {rv : Nat} {o : Out}
+    (h : s.taskRunning w id rv = .ok (s', o)) :
+    starts o.cbs = [] ∨ ∃ task, s.task? id = some task ∧ starts o.cbs = [(id, task.inst)] := by
+  simp only [State.taskRunning] at h
+  split at h
+  · cases h; exact .inl rfl
+  · rename_i task ht
+    right
+    repeat' split at h
+    all_goals first
+      | (cases h; done)
+      | (cases h; exact ⟨task, ht, by simp [startsOf]⟩)
 
 
 /-! ### `on_new_tasks` -/
